@@ -31,6 +31,19 @@ Theorem C14_parts_equal_whole : forall fuel doc n la lb s o rdk sk n',
 Proof. exact parts_equal_whole. Qed.
 Print Assumptions C14_parts_equal_whole.
 
+(* THE SAME AT document.render, WITH TEXTS: let A be a text without carriage returns whose blocks end before a non-empty run of trailing
+   blank lines, and B any text; if B renders from the session A left (with the loop fuel A left over) to outB, then
+   render(A) = o,  render(B) after it = outB,  and  render(A newline B) in one call = o . outB  with the same final session
+   (diagnostics included).  The reader splits A newline B into the lines of A followed by those of B (mk_reader_join), and
+   giving B the full fuel instead of what A left changes nothing (fuel monotonicity). *)
+Theorem C14_parts_equal_whole_text : forall n tA tB s o rdk sk n' outB sB, (forall x, In x tA -> x <> 13%N) ->
+  prefix_run n (doc_render n) n (mk_reader tA) s o rdk sk n' -> rdk <> [] -> all_blank rdk ->
+  doc_loop n (doc_render n) n' (mk_reader tB) sk = Ok (outB, sB) ->
+  doc_render (S n) tA s = Ok (o, sk) /\ doc_render (S n) tB sk = Ok (outB, sB) /\
+  doc_render (S n) (tA ++ 10%N :: tB) s = Ok (o ++ outB, sB).
+Proof. exact parts_equal_whole_text. Qed.
+Print Assumptions C14_parts_equal_whole_text.
+
 (* the premise is met by an ordinary document: a paragraph and two blank lines (the intermediate sessions are read off the
    model's own results, so that every premise is a closed computation) *)
 Definition ex_fuel := 20%nat.
